@@ -477,10 +477,10 @@ fn perturb(rng: &mut Rng, base: &[Msg], cover: usize) -> Vec<Msg> {
         _ => rng.below(base.len() as u64) as usize,
     };
     let mut d: Vec<Msg> = base[start..].to_vec();
-    if rng.chance(35) {
+    if rng.chance(45) {
         return d; // in-order, gap-free
     }
-    for _ in 0..rng.range(1, 3) {
+    for _ in 0..rng.range(1, 2) {
         if d.is_empty() {
             break;
         }
